@@ -1600,6 +1600,49 @@ fn fam_keyof(_func: Option<&str>, only: Option<u64>) {
             Err(_) => {}
         }
     } } }
+    // atoms with an index signature next to declared properties: the keys are the declared ones together with the
+    // signature's key type (`number`, `string`, or a literal the atom does not declare), whether or not the
+    // signature covers the declared keys
+    let subsets0: Vec<Vec<&'static str>> = (0..8u8).map(|m| (0..3).filter(|i| (m >> i) & 1 == 1).map(|i| names[i]).collect()).collect();
+    let sig_key = |sig: u8| -> Option<Rc<SemType>> {
+        match sig {
+            0 => None,
+            1 => Some(Rc::new(SemTypeContext::number())),
+            2 => Some(Rc::new(SemTypeContext::string())),
+            _ => Some(Rc::new(SemTypeContext::string_const(strc("z")))),
+        }
+    };
+    for a in &subsets0 { for sa in 0..4u8 { for b in &subsets0 { for sb in 0..4u8 { for op in 0..3 {
+        if sa == 0 && sb == 0 { continue; }
+        if !rep.want() { continue; }
+        if op == 0 && (a != b || sa != sb) { continue; }
+        let mut ctx = SemTypeContext::new();
+        let mk = |ctx: &mut SemTypeContext, ks: &Vec<&'static str>, sig: u8| {
+            let mut vs = BTreeMap::new();
+            for k in ks { vs.insert(k.to_string(), Rc::new(SemTypeContext::string())); }
+            let ip = sig_key(sig).map(|k| beff_core::subtyping::bdd::IndexedPropertiesAtomic { key: k, value: Rc::new(SemTypeContext::boolean()) });
+            Rc::new(ctx.mapping_definition(vs, ip))
+        };
+        let atom_keys = |ks: &Vec<&'static str>, sig: u8| -> Rc<SemType> {
+            match sig_key(sig) { Some(k) => keys_ty(ks).union(&k).unwrap(), None => keys_ty(ks) }
+        };
+        let ta = mk(&mut ctx, a, sa);
+        let tb = mk(&mut ctx, b, sb);
+        let (ka, kb) = (atom_keys(a, sa), atom_keys(b, sb));
+        let (descr, t, expect): (String, Rc<SemType>, Rc<SemType>) = match op {
+            0 => (format!("keyof {{{:?} sig{}}}", a, sa), ta.clone(), ka.clone()),
+            1 => (format!("keyof ({{{:?} sig{}}} & {{{:?} sig{}}})", a, sa, b, sb), match ta.intersect(&tb) { Ok(x) => x, Err(_) => continue }, ka.union(&kb).unwrap()),
+            _ => (format!("keyof ({{{:?} sig{}}} | {{{:?} sig{}}})", a, sa, b, sb), match ta.union(&tb) { Ok(x) => x, Err(_) => continue }, ka.intersect(&kb).unwrap()),
+        };
+        match ctx.keyof(t) {
+            Ok(r) => match r.is_same_type(&expect, &mut ctx) {
+                Ok(true) => {}
+                Ok(false) => rep.fail(descr, format!("keyof = {:?}", r), format!("the declared keys together with the signature's key type: {:?}", expect)),
+                Err(e) => rep.fail(descr, format!("is_same_type Err({})", e), "true".into()),
+            },
+            Err(_) => {}
+        }
+    } } } } }
     // a union with a primitive member (a literal, a whole basic type, undefined): primitives have no keys in beff,
     // so the union has none
     for a in &subsets { for prim in 0..5 {
